@@ -46,7 +46,14 @@ class Command(SerializableMixin, DictableMixin):
         self.argument = match.group(2).decode('utf-8', errors='surrogateescape')
 
     def to_bytes(self):
-        return '{0} {1}\r\n'.format(self.name, self.argument).encode(
+        line = '{0} {1}'.format(self.name, self.argument)
+
+        if '\r' in line or '\n' in line or '\0' in line:
+            # A command is exactly one line. URL-supplied text (path,
+            # user name, password) must not be able to add another one.
+            raise ProtocolError('Control character in FTP command.')
+
+        return '{0}\r\n'.format(line).encode(
             'utf-8', errors='surrogateescape')
 
     def to_dict(self):
